@@ -515,15 +515,23 @@ pub fn format_block(ctx: &Context, block: &Block, shape: Shape) -> Block {
     while let Some((stmt, semi)) = stmt_iterator.next() {
         ctx = ctx.check_toggle_formatting(stmt);
 
+        // Statements which are ignored or outside of the formatting range must be left as they are
+        let is_formatted = matches!(ctx.should_format_node(stmt), FormatNode::Normal);
+
         let shape = shape.reset();
         let mut stmt = format_stmt(&ctx, stmt, shape);
 
         // If this is the first stmt, then remove any leading newlines
         if !found_first_stmt {
-            if let FormatNode::Normal = ctx.should_format_node(&stmt) {
+            if is_formatted {
                 stmt = stmt_remove_leading_newlines(stmt);
             }
             found_first_stmt = true;
+        }
+
+        if !is_formatted {
+            formatted_statements.push((stmt, semi.to_owned()));
+            continue;
         }
 
         // If we have a semicolon, we need to push all the trailing trivia from the statement
@@ -583,17 +591,20 @@ pub fn format_block(ctx: &Context, block: &Block, shape: Shape) -> Block {
         Some((last_stmt, semi)) => {
             ctx = ctx.check_toggle_formatting(last_stmt);
 
+            // Statements which are ignored or outside of the formatting range must be left as they are
+            let is_formatted = matches!(ctx.should_format_node(last_stmt), FormatNode::Normal);
+
             let shape = shape.reset();
             let mut last_stmt = format_last_stmt(&ctx, last_stmt, shape);
             // If this is the first stmt, then remove any leading newlines
-            if !found_first_stmt && matches!(ctx.should_format_node(&last_stmt), FormatNode::Normal)
-            {
+            if !found_first_stmt && is_formatted {
                 last_stmt = last_stmt_remove_leading_newlines(last_stmt);
             }
 
             // LastStmt will never need a semicolon
             // We need to check if we previously had a semicolon, and keep the comments if so
             let semicolon = match semi {
+                Some(semi) if !is_formatted => Some(semi.to_owned()),
                 Some(semi) => {
                     // Append semicolon trailing trivia to the end, but before the newline
                     // TODO: this is a bit of a hack - we should probably move newline appending to this function
